@@ -59,7 +59,11 @@ LEVEL = {"C06": "other"}
 
 
 def sh(cmd, **kw):
-    return subprocess.run(cmd, shell=True, text=True, capture_output=True, env=ENV, **kw)
+    try:
+        return subprocess.run(cmd, shell=True, text=True, capture_output=True, env=ENV, **kw)
+    except subprocess.TimeoutExpired as e:
+        out = e.stdout.decode(errors="replace") if isinstance(e.stdout, bytes) else (e.stdout or "")
+        return subprocess.CompletedProcess(cmd, 124, stdout=out, stderr="timeout")
 
 
 def log(*a):
@@ -151,7 +155,8 @@ def proof_gate(prop):
     info["theorems"] = thms
     info["obligations"] = len(thms)
     # recompile the property file to capture Print Assumptions
-    r = sh(f"cd {COQ} && coqc -Q Model Model -Q Proofs Proofs -Q Props Props Props/{prop}.v -o {CACHE}/{prop}.gate.vo 2>&1",
+    os.makedirs(f"{CACHE}/gate", exist_ok=True)
+    r = sh(f"cd {COQ} && coqc -noglob -Q Model Model -Q Proofs Proofs -Q Props Props Props/{prop}.v -o {CACHE}/gate/{prop}.vo 2>&1",
            timeout=1200)
     if r.returncode != 0:
         info["notes"].append("property file does not compile: " + r.stdout[-1500:])
@@ -178,16 +183,32 @@ def run_model(cases_path, debug, out_path):
     return r.returncode == 0
 
 
-def run_impl(cases_path, prof, out_path, faults_path):
+def run_impl(cases_path, prof, out_path, faults_path, limit=None):
+    """run the harness; a crash or a hang (a broken build can loop or fault on memory it should not touch)
+    is reported with the case the marker file names"""
     marker = out_path + ".marker"
-    r = sh(f"{CACHE}/target/{prof}/mm-harness {cases_path} {faults_path} {marker} > {out_path}", timeout=3000)
+    if limit is None:
+        try:
+            n = sum(1 for _ in open(cases_path))
+        except OSError:
+            n = 1000
+        limit = 60 + n // 20
+    cmd = f"{CACHE}/target/{prof}/mm-harness {cases_path} {faults_path} {marker}"
     crash = None
-    if r.returncode != 0:
+    with open(out_path, "w") as fo:
+        p = subprocess.Popen(cmd.split(), stdout=fo, stderr=subprocess.DEVNULL, env=ENV)
+        try:
+            rc = p.wait(timeout=limit)
+        except subprocess.TimeoutExpired:
+            p.kill()
+            p.wait()
+            rc = -9
+    if rc != 0:
         try:
             crash = open(marker).read().split("\n")
         except Exception:
             crash = ["?", "?"]
-    return r.returncode == 0, crash
+    return rc == 0, crash
 
 
 def read_obs(path):
@@ -350,7 +371,7 @@ def one_case_fails(prop, tmp):
             fh.write(case + "\n")
         for prof, dbg in (("debug", 1), ("release", 0)):
             run_model(p, dbg, p + ".m")
-            ok, crash = run_impl(p, prof, p + ".i", p + ".f")
+            ok, crash = run_impl(p, prof, p + ".i", p + ".f", limit=10)
             if not ok:
                 return True
             if open(p + ".m").read() != open(p + ".i").read():
@@ -360,6 +381,44 @@ def one_case_fails(prop, tmp):
                     return True
         return False
     return f
+
+
+def surface_check():
+    """C05: every public entry of /repo/src is in coq/MODELLED.tsv"""
+    import surface
+    have = set()
+    for ln in open(COQ + "/MODELLED.tsv"):
+        if ln.startswith("#") or not ln.strip():
+            continue
+        have.add(ln.split("\t")[0])
+    cur = surface.surface()
+    return [e for e in cur if e not in have]
+
+
+def nostd_check():
+    """C06: the crate builds without the standard library: the expanded crate carries #![no_std] and links
+    neither std nor alloc.  returns (ok, text)"""
+    r = sh("cd /repo && CARGO_TARGET_DIR=" + CACHE + "/target-nostd cargo +nightly rustc --lib --offline -- -Zunpretty=expanded 2>&1",
+           timeout=900)
+    txt = r.stdout
+    if r.returncode != 0 or "#![no_std]" not in txt:
+        # fall back to a plain build + source scan when the nightly expansion is unavailable
+        r2 = sh("cd /repo && CARGO_TARGET_DIR=" + CACHE + "/target-nostd cargo build --lib --offline 2>&1", timeout=900)
+        lib = open("/repo/src/lib.rs").read()
+        attr = re.search(r"#!\[cfg_attr\(all\(not\(feature = \"std\"\), not\(doc\), not\(test\)\), no_std\)\]", lib)
+        if r2.returncode != 0:
+            return False, "cargo build --lib failed:\n" + r2.stdout[-1500:]
+        if not attr:
+            return False, "src/lib.rs no longer declares no_std outside std/doc/test"
+        txt = ""
+        for dp, _, fs in os.walk("/repo/src"):
+            for f in fs:
+                if f.endswith(".rs"):
+                    txt += open(os.path.join(dp, f)).read().split("#[cfg(test)]")[0]
+    bad = re.findall(r"extern crate (std|alloc)\b|\b(std|alloc)::(vec|boxed|string|collections|rc|sync)\b", txt)
+    if bad:
+        return False, "the library refers to std/alloc: " + str(bad[:5])
+    return True, "no_std build ok"
 
 
 def fault_kind(line):
@@ -517,6 +576,22 @@ def check(prop, tier, replay=None):
                     f"# ({len(diff_cases)} of {len(cases)} cases differ; first difference, shrunk)\n"
                     + "\n".join(txt) + "\n" + small + "\n")
         violations.append((f"correspondence broken on {len(diff_cases)} cases", rp, functional_property(prop)))
+    if prop == "C05" and not replay and not violations:
+        missing = surface_check()
+        if missing:
+            rp = f"{OUT}/replay/{prop}-surface.txt"
+            with open(rp, "w") as f:
+                f.write("property C05 quantifies over every public operation; these entries of /repo/src are not in "
+                        "coq/MODELLED.tsv, so the invariant theorems no longer cover the API:\n" + "\n".join(missing) + "\n")
+            violations.append(("API surface not covered by the model: " + ", ".join(missing[:4]), rp, False))
+    if prop == "C06" and not replay and not violations:
+        ok6, txt6 = nostd_check()
+        notes.append(txt6[:200])
+        if not ok6:
+            rp = f"{OUT}/replay/{prop}-nostd.txt"
+            with open(rp, "w") as f:
+                f.write("property C06: the crate must build without the standard library\n" + txt6 + "\n")
+            violations.append(("no_std build", rp, True))
     if not gate_ok and not violations:
         rp = f"{OUT}/replay/{prop}-proof.txt"
         with open(rp, "w") as f:
